@@ -611,13 +611,27 @@ pub fn run_world(z: &Z, early: bool) -> Result<Run, CaseOut> {
     }
     let mut stalled = false;
     if !completed && w.viol.is_empty() && !w.hit_step_limit && w.conns.iter().skip(2).all(|k| k.app.lost.is_empty()) && w.faults_exhausted() {
-        let p0 = progress(&w);
-        let t = w.now + 30_000_000;
-        w.run(t, |w| complete(w, c) || w.conns.iter().skip(2).any(|k| !k.app.lost.is_empty()));
-        if complete(&w, c) {
-            completed = true;
-        } else {
-            stalled = progress(&w) == p0 && w.viol.is_empty() && !w.hit_step_limit;
+        // "nothing moves any more" is only a fact once no loss-detection timer is left to fire: probe
+        // timeouts keep the backoff of the handshake's loss episodes and may lie minutes ahead
+        loop {
+            let p0 = progress(&w);
+            let t = (w.now + 30_000_000).min(hard_end);
+            w.run(t, |w| complete(w, c) || w.conns.iter().skip(2).any(|k| !k.app.lost.is_empty()));
+            if complete(&w, c) {
+                completed = true;
+                break;
+            }
+            if !w.viol.is_empty() || w.hit_step_limit || w.conns.iter().skip(2).any(|k| !k.app.lost.is_empty()) {
+                break;
+            }
+            let timer_left = w.conns.iter().skip(2).any(|k| !k.gone && k.c.verif_probe().timers_armed.contains(&"LossDetection"));
+            if progress(&w) == p0 && !timer_left {
+                stalled = true;
+                break;
+            }
+            if w.now >= hard_end {
+                break;
+            }
         }
     }
     let viol = w.collect_violations();
@@ -1325,7 +1339,17 @@ pub fn case_with(z: &Z, with_twin: bool) -> CaseOut {
                 fails.push((
                     {
                         let sp = r.w.conns[s].c.verif_probe();
-                        if e.written == 0 && facts.retry {
+                        let cp = r.w.conns[r.c].c.verif_probe();
+                        // known finding of C02 in its 0-RTT shape: the early packets were dropped before the
+                        // server accepted the attempt, cannot be acknowledged, fill the client's congestion
+                        // window, and its Handshake flight waits behind them with no loss-detection timer armed
+                        let wedged = r.stalled && cp.state <= 1 && cp.bytes_in_flight + cp.current_mtu as u64 >= cp.congestion_window && !cp.timers_armed.contains(&"LossDetection") && sp.sent_packets[1] > 0;
+                        if std::env::var("QV_TRACE").is_ok() {
+                            eprintln!("wedge? stalled={} cstate={} in_flight={} mtu={} cwnd={} timers={:?} srv_sent={:?} srv_timers={:?}", r.stalled, cp.state, cp.bytes_in_flight, cp.current_mtu, cp.congestion_window, cp.timers_armed, sp.sent_packets, sp.timers_armed);
+                        }
+                        if wedged {
+                            "c02/handshake-retransmit-congestion-blocked-by-unackable-packets".to_string()
+                        } else if e.written == 0 && facts.retry {
                             "c17/early-data-not-delivered@empty-fin-after-retry".to_string()
                         } else if sp.authentication_failures > 0 && r.w.conns[s].app.stats.key_updates > 0 {
                             // the server dropped its previous 1-RTT keys together with the 0-RTT keys
